@@ -512,10 +512,11 @@ def F30_gmm_estep_underflow_nan():
 
 # ---------------------------------------------------------------- C09 / F31
 def F31_resume_replays_stream():
-    """`load_sampler_state` reseeds the process-wide stream with the checkpoint's `random_state`, so a seeded run resumed from a
-    checkpoint restarts the stream at position 0 and receives again the numbers the original run consumed in its first
+    """`load_sampler_state` reseeded the process-wide stream with the checkpoint's `random_state`, so a seeded run resumed from a
+    checkpoint restarted the stream at position 0 and received again the numbers the original run consumed in its first
     iterations.  Visible bit for bit while the checkpointed state is still in warm-up: the first resumed batch of prior draws
-    is an exact copy of the first batch of the run, and both sit in the persistent pool as if independent."""
+    was an exact copy of the first batch of the run, and both sat in the persistent pool as if independent.
+    (Repaired in db2b14b: the checkpoint stores np.random.get_state() and loading restores it.)"""
     import contextlib
     import io
     import tempfile
@@ -537,6 +538,227 @@ def F31_resume_replays_stream():
             "detail": f"Sampler(random_state=3, n_particles=32, rwm, syst).run(n_total=64, save_every=1), then "
                       f"run(resume_state_path='w_1.state'): history u[1] == u[0] bit for bit: {dup} "
                       f"(beta of the two batches: {beta[:2].tolist()})"}
+
+
+# ---------------------------------------------------------------- C07 / F29
+def F29_undeclared_blobs_stale():
+    """A likelihood that returns `(logl, blob)` WITHOUT `blobs_dtype` (the form of docs/user_guide/basic_usage.md): `_log_like`
+    packs the blobs and the warm-up stores them, but (before /repo 9130321) the resampler, the mutation step and
+    `posterior()` moved blobs only when `blobs_dtype` was set — every later `sample()` dictionary and every later batch of
+    `results()['blobs']` carried the LAST WARM-UP batch's blobs beside other particles' x."""
+    from tempest import Sampler
+
+    def T(u):
+        return 4.0 * u - 2.0
+
+    def L(x):
+        return (-2.0 * float(np.sum(x ** 2)), float(x[0]) * 2.0 + 1.0)
+    with _quiet(), warnings.catch_warnings():
+        warnings.simplefilter("ignore")
+        np.random.seed(0)
+        s = Sampler(T, L, 2, n_particles=16, clustering=False, sample="rwm", n_steps=1, n_max_steps=2)
+        s._core._initialize_fresh()
+        bad = []
+        for it in range(8):
+            st = s.sample()
+            b, x = st["blobs"], st["x"]
+            if b is None or not np.array_equal(np.ravel(b), x[:, 0] * 2.0 + 1.0):
+                bad.append(it)
+        res = s.results()
+        bad_hist = [k for k in range(len(res["x"]))
+                    if len(res["blobs"]) <= k or not np.array_equal(np.ravel(res["blobs"][k]), res["x"][k][:, 0] * 2.0 + 1.0)]
+        try:
+            out = s.posterior(return_blobs=True)
+            post = "no blobs returned" if len(out) < 4 else (
+                "ok" if np.array_equal(np.ravel(out[3]), out[0][:, 0] * 2.0 + 1.0) else "blobs of other particles")
+        except Exception as e:  # noqa
+            post = f"raised {type(e).__name__}"
+    fails = bool(bad or bad_hist or post != "ok")
+    return {"fails": fails,
+            "detail": f"Sampler(likelihood returning (logl, 2*x0+1), no blobs_dtype, n_particles=16, rwm, seed 0), 8 x sample(): "
+                      f"iterations whose returned blobs are not the blobs of the returned x: {bad}; results() batches with foreign "
+                      f"blobs: {bad_hist}; posterior(return_blobs=True): {post}"}
+
+
+# ---------------------------------------------------------------- C17 / F32
+def F32_object_blob_alias():
+    """containers of arrays (object-dtype blobs, lists) must be copied DEEPLY by every accessor, by commit and by import:
+    (A1) a list value, (A2) an object array, (B) a real Sampler whose likelihood returns `(logl, array, "tag")`
+    (object-dtype blobs): writing into an array found inside a returned container must not change any later read"""
+    from tempest.state_manager import StateManager
+    bad = []
+    sm = StateManager(2)
+    sm.set_current("blobs", [np.array([1.0, 2.0])])
+    sm.set_current("beta", 0.0)
+    sm.commit_current_to_history()
+    g = sm.get_current("blobs")
+    g[0][:] = -9.0
+    if float(np.asarray(sm.get_history("blobs", 0)[0])[0]) != 1.0 or float(np.asarray(sm.get_current("blobs")[0])[0]) != 1.0:
+        bad.append("A1: list value returned/committed by reference")
+    sm = StateManager(2)
+    o = np.empty(1, dtype=object)
+    o[0] = np.array([1.0, 2.0])
+    sm.set_current("blobs", o)
+    sm.commit_current_to_history()
+    sm.get_history("blobs", 0)[0][:] = -9.0
+    reads = [sm.get_history("blobs", 0)[0], sm.get_current("blobs")[0], sm.to_dict()["_history"]["blobs"][0][0],
+             sm.get_history("blobs")[0, 0], sm.get_history("blobs", flat=True)[0]]
+    if any(float(r[0]) != 1.0 for r in reads):
+        bad.append("A2: element of an object array shared between an accessor's result and the committed batch")
+    for name in ("all", "flat"):
+        r = sm.get_history("blobs") if name == "all" else sm.get_history("blobs", flat=True)
+        r.flat[0][:] = -7.0
+        if float(sm.get_history("blobs", 0)[0][0]) != 1.0:
+            bad.append(f"A2: get_history('blobs'{', flat=True' if name == 'flat' else ''}) hands out the committed element arrays")
+    with _quiet(), warnings.catch_warnings():
+        warnings.simplefilter("ignore")
+        np.random.seed(0)
+        s = _mk_sampler(log_likelihood=lambda x: (-0.5 * float(np.sum(x ** 2)), np.array([x[0]]), "tag"),
+                        n_particles=16, clustering=False)
+        s._core._initialize_fresh()
+        st = s.sample()
+        s.sample()
+        before = float(s.state._history["blobs"][0][0, 0][0])
+        st["blobs"][0, 0][:] = -9.0
+        r = s.results()
+        r["blobs"][0, 1, 0][:] = -9.0
+        p = s.posterior(return_blobs=True, trim_importance_weights=False)
+        p[3][2, 0][:] = -9.0
+        h = s.state._history["blobs"][0]
+        after = [float(h[0, 0][0]), float(h[1, 0][0]), float(h[2, 0][0])]
+        x0 = [float(v) for v in s.state._history["x"][0][:3, 0]]
+    if before == -9.0 or after != x0:
+        bad.append(f"B: arrays inside sample()/results()/posterior() blobs are the committed ones (batch 0 reads {after}, want {x0})")
+    return {"fails": bool(bad), "detail": "; ".join(bad) or "nested arrays are copied by set/get/commit/get_history/results/posterior"}
+
+
+# ---------------------------------------------------------------- C09 / F34 (suspected; reported by the C09 clause audit)
+def F34_rerun_reseeds_stream():
+    """The fresh branch of `run_sampling` calls `_initialize_fresh`, which seeds with `config.random_state` UNCONDITIONALLY — also
+    when the sampler already holds a history: after a first `run()`, or after `load_state()` followed by `run()` (the documented
+    way to continue from a manual checkpoint, docs/user_guide/advanced.md).  The continuation then restarts the stream at
+    position 0 (the position restored by `load_state` is overwritten) and receives again the numbers that generated the first
+    batch of the original run: its first draw, the training resample `np.random.choice(n, size=4n, p=w)`, consumes uniforms whose
+    first n_particles*n_dim are exactly `u[0]` of the original run."""
+    import contextlib
+    import io
+    import tempfile
+    from tempest import Sampler
+
+    def mk():
+        return Sampler(lambda u: 8.0 * u - 4.0, lambda x: -0.5 * float(np.sum(x ** 2)), 2, n_particles=32, clustering=False,
+                       sample="rwm", resample="syst", random_state=3, n_steps=1, n_max_steps=2)
+    first = {}
+    real_choice = np.random.choice
+
+    def spy(*a, **k):
+        st = np.random.get_state()
+        if "state" not in first:
+            first["state"] = (st[1].tobytes(), int(st[2]))
+        return real_choice(*a, **k)
+    with tempfile.TemporaryDirectory() as d, contextlib.redirect_stdout(io.StringIO()), warnings.catch_warnings():
+        warnings.simplefilter("ignore")
+        a = mk()
+        a.run(n_total=64, progress=False)
+        u0 = np.array(a.state.get_history("u")[0], copy=True)
+        p = os.path.join(d, "m.state")
+        a.save_state(p)
+        b = mk()
+        b.load_state(p)
+        with common.patched(np.random, "choice", spy):
+            b.run(n_total=256, progress=False)
+    g = np.random.RandomState(3)
+    s3 = g.get_state()
+    at_seed = first.get("state") == (s3[1].tobytes(), int(s3[2]))
+    same = bool(np.array_equal(np.random.RandomState(3).random_sample(u0.size).reshape(u0.shape), u0))
+    return {"fails": bool(at_seed and same),
+            "detail": f"Sampler(random_state=3, n_particles=32, rwm, syst): run(n_total=64); save_state; new identical sampler: load_state; "
+                      f"run(n_total=256): the continuation's first draw starts from the state seed(3) (position 0): {at_seed}; the "
+                      f"uniforms it consumes begin with u[0] of the original run: {same}"}
+
+
+# ---------------------------------------------------------------- C08 / F34
+def F34_manual_resume_restarts_counters():
+    """The documented manual resume `load_state(path); run()` — and a second `run()` on the same sampler — went through the
+    fresh-start branch of `run_sampling` (before /repo aeb0399): `iter`, `calls`, `beta`, `logz` were reset to 0 while the loaded
+    history stayed, so the new iterations were numbered 1, 2, … again, the call counter restarted from 0 and the temperature
+    schedule restarted from 0 on top of a history that had already reached beta > 0 (and a seeded sampler reseeded the stream:
+    C09's half).  `fails` = the committed iteration numbers are not 1..n, or the call counter / the temperature decreases."""
+    import contextlib
+    import io
+    import tempfile
+    from tempest import Sampler
+
+    def mk(d):
+        return Sampler(lambda u: 8.0 * u - 4.0, lambda x: -0.5 * float(np.sum(x ** 2)), 2, n_particles=32, clustering=False,
+                       sample="rwm", resample="syst", random_state=3, n_steps=1, n_max_steps=2, output_dir=d, output_label="w")
+
+    def shape(s):
+        it = [int(v) for v in s.state._history["iter"]]
+        ca = [int(v) for v in s.state._history["calls"]]
+        be = [float(np.asarray(v)) for v in s.state._history["beta"]]
+        ok = it == list(range(1, len(it) + 1)) and all(b >= a for a, b in zip(ca, ca[1:])) and all(b >= a for a, b in zip(be, be[1:]))
+        return ok, it, ca
+
+    with tempfile.TemporaryDirectory() as d, contextlib.redirect_stdout(io.StringIO()), warnings.catch_warnings():
+        warnings.simplefilter("ignore")
+        a = mk(d)
+        a.run(n_total=64, progress=False, save_every=1)
+        n_a = len(a.state._history["iter"])
+        k = max(1, n_a - 2)
+        b = mk(d)
+        b.load_state(os.path.join(d, f"w_{k}.state"))
+        b.run(n_total=64, progress=False)
+        ok_b, it_b, ca_b = shape(b)
+        a.run(n_total=256, progress=False)          # extend the finished run
+        ok_a, it_a, ca_a = shape(a)
+    return {"fails": not (ok_b and ok_a and len(it_a) > n_a),
+            "detail": f"Sampler(random_state=3, n_particles=32, rwm, syst).run(n_total=64, save_every=1) [{n_a} iterations]; fresh sampler "
+                      f"load_state('w_{k}.state'); run(n_total=64): committed iter {it_b}, calls {ca_b}; first sampler run(n_total=256) "
+                      f"again: committed iter {it_a[:n_a]}+{it_a[n_a:]}"}
+
+
+def _c18_construct_then_run(**kw):
+    """-> (stage at which an exception escaped: None | 'construct' | 'run', 'Type: message', likelihood calls before it)"""
+    import tempest
+    calls = [0]
+
+    def like(x):
+        calls[0] += 1
+        return -0.5 * float(np.sum((np.asarray(x) - 0.5) ** 2)) * 3.0
+    kw.setdefault("n_dim", 3)
+    kw.setdefault("n_particles", 16)
+    stage = "construct"
+    with tempfile.TemporaryDirectory() as d, contextlib.redirect_stdout(io.StringIO()), warnings.catch_warnings():
+        warnings.simplefilter("ignore")
+        st = np.random.get_state()
+        try:
+            np.random.seed(1)
+            s = tempest.Sampler(lambda u: 8.0 * u - 4.0, like, output_dir=d, **kw)
+            stage = "run"
+            s.run(n_total=32, progress=False)
+            return None, "completes", calls[0]
+        except Exception as e:  # noqa
+            return stage, f"{type(e).__name__}: {str(e)[:120]}", calls[0]
+        finally:
+            np.random.set_state(st)
+
+
+def F_C18_bool_dimension_accepted():
+    """C18 clause audit: a Python bool as dimension / particle count is neither rejected at construction nor runnable"""
+    a = _c18_construct_then_run(n_dim=True)
+    b = _c18_construct_then_run(n_particles=True)
+    return {"fails": a[0] == "run" or b[0] == "run",
+            "detail": f"Sampler(prior, like, n_dim=True).run(32) -> {a[0] or 'ok'}: {a[1]}; Sampler(prior, like, 3, n_particles=True).run(32) -> "
+                      f"{b[0] or 'ok'}: {b[1]}"}
+
+
+def F_C18_nonfinite_ess_ratio_accepted():
+    """C18 clause audit: ess_ratio = inf / nan is 'not <= 0', so it passes validate(); int(ess_ratio * n_particles) then raises"""
+    a = _c18_construct_then_run(ess_ratio=float("inf"))
+    b = _c18_construct_then_run(ess_ratio=float("nan"))
+    return {"fails": a[0] == "run" or b[0] == "run",
+            "detail": f"Sampler(prior, like, 3, ess_ratio=inf).run(32) -> {a[0] or 'ok'}: {a[1]}; ess_ratio=nan -> {b[0] or 'ok'}: {b[1]}"}
 
 
 ALL = {k: v for k, v in list(globals().items()) if k[:1] == "F" and callable(v)}
